@@ -205,6 +205,12 @@ pub fn names() -> Vec<Vec<u8>> {
         "MQT\u{e9}".as_bytes().to_vec(),
         vec![0xED, 0xA0, 0x80, b'T'],
         b"MQTTMQTT".to_vec(),
+        // every proper prefix of the legal names
+        b"MQ".to_vec(),
+        b"MQT".to_vec(),
+        b"MQI".to_vec(),
+        b"MQIs".to_vec(),
+        b"MQIsd".to_vec(),
         b"MQTTMQIsdp".to_vec(),
         b"MQIsdpMQTT".to_vec(),
     ];
